@@ -3,6 +3,7 @@ C08 — the in-memory registry is race-free and linearizable (partial: see DESIG
 Obligations on the lock discipline regenerated from ocimem/*.go.
 -/
 import OciModel.Generated.Locks
+import OciModel.MemConcLemmas
 
 namespace OciModel.Props.C08
 open OciModel.Generated.Locks
@@ -26,5 +27,250 @@ theorem registry_methods_atomic :
     ∀ m ∈ methods, m.1 = "Registry" →
       m.2.2.1 = true ∨ (m.2.1 = "PushBlob" ∧ m.2.2.2 = ["makeRepo"]) ∨
         (m.2.1 = "PushBlobChunked" ∧ m.2.2.2 = ["PushBlobChunkedResume"]) := by decide
+
+/-! ## The concurrent model: every interleaving of atomic steps
+
+`H` (the content hash) is a parameter throughout; nothing is assumed about it. -/
+
+open OciModel OciModel.Mem OciModel.MemConc
+
+section
+variable (H : Bytes → Bytes)
+
+/-! ### K1 — a committed blob's stored content always matches its digest -/
+
+theorem cinv_init (imm : Bool) : CInv H ⟨Mem.init imm, []⟩ := MemConc.cinv_init H imm
+
+theorem cinv_astep (c : CState) (a : AStep) (hc : CInv H c) : CInv H (astep H c a).1 :=
+  MemConc.cinv_astep H c a hc
+
+theorem cinv_arun (c : CState) (sched : List AStep) (hc : CInv H c) : CInv H (arun H c sched) :=
+  MemConc.cinv_arun H c sched hc
+
+/-- After ANY schedule of atomic steps from the empty registry — whatever writes were interleaved
+between the two critical sections of whatever commits — every stored blob (and manifest) hashes
+to the digest it is stored under. -/
+theorem committed_blob_matches_digest (imm : Bool) (sched : List AStep) {r d : Bytes} {rp : Repo} {b : Blob}
+    (hg : getRepo (arun H ⟨Mem.init imm, []⟩ sched).st r = some rp)
+    (hb : alookup d rp.blobs = some b) : H b.data = d :=
+  ((cinv_arun H _ sched (cinv_init H imm)).1 r rp hg).1 d b hb
+
+theorem stored_manifest_matches_digest (imm : Bool) (sched : List AStep) {r d : Bytes} {rp : Repo} {b : Blob}
+    (hg : getRepo (arun H ⟨Mem.init imm, []⟩ sched).st r = some rp)
+    (hb : alookup d rp.manifests = some b) : H b.data = d :=
+  ((cinv_arun H _ sched (cinv_init H imm)).1 r rp hg).2 d b hb
+
+/-! ### K2 — the commit stores the bytes that were checked -/
+
+/-- No operation removes a repository. -/
+theorem repo_never_removed {s : State} {r : Bytes} {rp : Repo} (o : Op) (hg : getRepo s r = some rp) :
+    ∃ rp', getRepo (step H s o).1 r = some rp' :=
+  (keeps_step H s o).some hg
+
+theorem repo_never_removed_astep {c : CState} {r : Bytes} {rp : Repo} (a : AStep) (hg : getRepo c.st r = some rp) :
+    ∃ rp', getRepo (astep H c a).1.st r = some rp' :=
+  (keeps_astep H c a).some hg
+
+theorem repo_never_removed_arun {c : CState} {r : Bytes} {rp : Repo} (sched : List AStep)
+    (hg : getRepo c.st r = some rp) : ∃ rp', getRepo (arun H c sched).st r = some rp' :=
+  (keeps_arun H c sched).some hg
+
+/-- If the first critical section of a commit of session `(r, id)` succeeds while the buffer
+holds `b.buf`, then after ANY atomic steps `mid` other than critical sections of a commit of the
+same session — writes to that very session, cancels, deletions, other sessions' commits … — the
+second critical section succeeds, reports `⟨octet-stream, dig, |b.buf|⟩`, and stores exactly
+`b.buf` under `dig`; and `b.buf` hashes to `dig`. -/
+theorem commit_stores_checked_bytes {c c1 : CState} {r id dig : Bytes} {rp : Repo} {b : Buffer}
+    (hb : getBuffer c.st r id = some (rp, b))
+    (hc : astep H c (.commitCheck r id dig) = (c1, .okUnit))
+    (mid : List AStep) (hmid : NoCommitOf r id mid) :
+    H b.buf = dig ∧
+    ∃ rp1, getRepo (arun H c1 mid).st r = some rp1 ∧
+      astep H (arun H c1 mid) (.commitStore r id) =
+        ({ st := putRepo (arun H c1 mid).st r
+                   { rp1 with blobs := ainsert dig ⟨octetStream, b.buf, [], []⟩ rp1.blobs },
+           snaps := eraseSnap (r, id) (arun H c1 mid).snaps },
+         .okDesc ⟨octetStream, dig, b.buf.length⟩) ∧
+      ∃ rp2, getRepo (astep H (arun H c1 mid) (.commitStore r id)).1.st r = some rp2 ∧
+        alookup dig rp2.blobs = some ⟨octetStream, b.buf, [], []⟩ := by
+  obtain ⟨_, hd, hc1⟩ := commitCheck_ok H hb hc
+  refine ⟨hd, ?_⟩
+  have hg1 : getRepo c1.st r = some { rp with uploads := ainsert id { b with committed := true } rp.uploads } := by
+    rw [hc1]; exact getRepo_putRepo_eq _ _ _
+  obtain ⟨rp1, hg⟩ := repo_never_removed_arun H mid hg1
+  have hsnap : lookupSnap (r, id) (arun H c1 mid).snaps = some (dig, b.buf) := by
+    rw [snap_arun H c1 mid hmid, hc1]
+    exact lookupSnap_cons_eq _ _ _
+  refine ⟨rp1, hg, ?_⟩
+  rcases commitStore_spec H (arun H c1 mid) r id with ⟨hn, _⟩ | ⟨_, _, _, hn, _⟩ | ⟨dig', data', rp', hl, hg', h⟩
+  · rw [hn] at hsnap; cases hsnap
+  · rw [hn] at hg; cases hg
+  · rw [hsnap] at hl; cases hl
+    rw [hg] at hg'; cases hg'
+    refine ⟨h, ?_⟩
+    rw [h]
+    exact ⟨_, getRepo_putRepo_eq _ _ _, alookup_ainsert_eq _ _ _⟩
+
+/-! ### K3 — a tag that always points at an existing manifest is never reported missing -/
+
+/-- `GetTag` is one atomic step (`registry_methods_atomic`); if at that instant the tag points
+at an existing manifest, it returns that manifest. -/
+theorem getTag_succeeds {s : State} {r t : Bytes} {rp : Repo} {d : Desc} {b : Blob}
+    (hg : getRepo s r = some rp) (ht : alookup t rp.tags = some d)
+    (hb : alookup d.digest rp.manifests = some b) :
+    step H s (.getTag r t) = (s, .okRead (descOf H b) b.data) :=
+  step_getTag_of H hg ht hb
+
+theorem getTag_atomic_ok {c : CState} {r t : Bytes} (h : TagOK r t c) :
+    ∃ rp d b, getRepo c.st r = some rp ∧ alookup t rp.tags = some d ∧
+      alookup d.digest rp.manifests = some b ∧
+      astep H c (.op (.getTag r t)) = (c, .okRead (descOf H b) b.data) := by
+  obtain ⟨rp, d, b, hg, ht, hb⟩ := h
+  refine ⟨rp, d, b, hg, ht, hb, ?_⟩
+  rw [astep_op, getTag_succeeds H hg ht hb]
+
+/-- If `t` points at an existing manifest in every state a schedule goes through, then every
+`GetTag r t` step of the schedule returns a manifest (never an error). -/
+theorem tag_never_missing (c : CState) (sched : List AStep) (r t : Bytes)
+    (h : Along H (TagOK r t) c sched) (i : Nat) (hi : sched[i]? = some (.op (.getTag r t))) :
+    ∃ d data, (aouts H c sched)[i]? = some (.okRead d data) := by
+  induction sched generalizing c i with
+  | nil => simp at hi
+  | cons a rest ih =>
+    cases i with
+    | zero =>
+      simp at hi; subst hi
+      obtain ⟨_, _, b, _, _, _, hst⟩ := getTag_atomic_ok H h.1
+      exact ⟨descOf H b, b.data, by simp [aouts, hst]⟩
+    | succ j =>
+      simp only [List.getElem?_cons_succ] at hi
+      obtain ⟨d, data, hd⟩ := ih _ h.2 j hi
+      exact ⟨d, data, by simpa [aouts] using hd⟩
+
+/-- The same with "every state along the schedule" spelled out as "the state after every prefix". -/
+theorem tag_never_missing_prefix (c : CState) (sched : List AStep) (r t : Bytes)
+    (h : ∀ pre post, sched = pre ++ post → TagOK r t (arun H c pre))
+    (pre post : List AStep) (e : sched = pre ++ .op (.getTag r t) :: post) :
+    ∃ b, astep H (arun H c pre) (.op (.getTag r t)) = (arun H c pre, .okRead (descOf H b) b.data) := by
+  obtain ⟨_, _, b, _, _, _, hst⟩ := getTag_atomic_ok H (h pre _ e)
+  exact ⟨b, hst⟩
+
+end
+
+/-- Why one critical section: if `GetTag` resolved the tag and fetched the manifest in two
+critical sections, then in the schedule `TwoStep.sched` — started after `m1` was pushed under
+the tag — the tag points at an existing manifest at every instant, the resolve returns `d1`,
+and the fetch of `d1.digest` nevertheless reports `MANIFEST_UNKNOWN`. -/
+theorem two_step_getTag_counterexample :
+    Along TwoStep.Htoy (TagOK TwoStep.rT TwoStep.tT) TwoStep.c1 TwoStep.sched ∧
+    aouts TwoStep.Htoy TwoStep.c1 TwoStep.sched =
+      [.okDesc TwoStep.d1, .okDesc TwoStep.d2, .okUnit, .err "MANIFEST_UNKNOWN"] := by
+  refine ⟨along_of_b TwoStep.Htoy (P := tagOKb TwoStep.rT TwoStep.tT) (fun _ h => tagOK_of_b h) ?_, ?_⟩
+  · decide
+  · decide
+
+/-- In the very same schedule the one-section `GetTag` succeeds at every instant. -/
+theorem one_step_getTag_in_counterexample (pre post : List AStep) (e : TwoStep.sched = pre ++ post) :
+    ∃ b, astep TwoStep.Htoy (arun TwoStep.Htoy TwoStep.c1 pre) (.op (.getTag TwoStep.rT TwoStep.tT)) =
+      (arun TwoStep.Htoy TwoStep.c1 pre, .okRead (descOf TwoStep.Htoy b) b.data) := by
+  have h := along_prefix TwoStep.Htoy two_step_getTag_counterexample.1 pre post e
+  obtain ⟨_, _, b, _, _, _, hst⟩ := getTag_atomic_ok TwoStep.Htoy h
+  exact ⟨b, hst⟩
+
+/-! ### K4 — the atomic steps give a linearization order consistent with real time -/
+
+/-- If `a` returns before `b` is invoked, `a`'s atomic step precedes `b`'s. -/
+theorem realtime_respected {tr : List Ev} {ids : List Nat} (hwf : WellFormed tr ids) {a b : Nat}
+    (ha : a ∈ ids) (hb : b ∈ ids) {ra ib : Nat}
+    (hra : pos (.ret a) tr = some ra) (hib : pos (.inv b) tr = some ib) (hlt : ra < ib) :
+    ∃ sa sb, pos (.step a) tr = some sa ∧ pos (.step b) tr = some sb ∧ sa < sb := by
+  obtain ⟨_, sa, ra', _, hsa, hra', _, h1⟩ := hwf a ha
+  obtain ⟨ib', sb, _, hib', hsb, _, h2, _⟩ := hwf b hb
+  rw [hra] at hra'; cases hra'
+  rw [hib] at hib'; cases hib'
+  exact ⟨sa, sb, hsa, hsb, by omega⟩
+
+/-- Distinct operations have distinct linearization points: the order of the atomic steps is
+a strict total order on the operations. -/
+theorem step_positions_injective {tr : List Ev} {a b s : Nat}
+    (ha : pos (.step a) tr = some s) (hb : pos (.step b) tr = some s) : a = b := by
+  have h1 := pos_get ha
+  have h2 := pos_get hb
+  rw [h1] at h2
+  cases h2; rfl
+
+/-! ### K5 — the two-step commit against the sequential `wCommit` -/
+
+section
+variable (H : Bytes → Bytes)
+
+/-- An `op` atomic step is exactly `Mem.step`. -/
+theorem astep_op_is_step (c : CState) (o : Op) :
+    (astep H c (.op o)).1.st = (step H c.st o).1 ∧ (astep H c (.op o)).2 = (step H c.st o).2 ∧
+    (astep H c (.op o)).1.snaps = c.snaps := ⟨rfl, rfl, rfl⟩
+
+/-- A schedule made of whole operations only is the sequential run of those operations in
+step order: same final state, same outputs. -/
+theorem arun_ops_eq_run (c : CState) (ops : List Op) :
+    (arun H c (ops.map .op)).st = (run H c.st ops).1 ∧
+    aouts H c (ops.map .op) = (run H c.st ops).2 ∧
+    (arun H c (ops.map .op)).snaps = c.snaps := by
+  induction ops generalizing c with
+  | nil => exact ⟨rfl, rfl, rfl⟩
+  | cons o rest ih =>
+    obtain ⟨h1, h2, h3⟩ := ih (astep H c (.op o)).1
+    refine ⟨?_, ?_, ?_⟩
+    · exact h1
+    · simp only [List.map_cons, aouts, run]
+      rw [h2]; rfl
+    · exact h3
+
+/-- With nothing in between, the two critical sections of a commit have the effect and the
+output of the sequential `wCommit`; and when the first one refuses, it alone has. -/
+theorem sequential_commit_refines (c : CState) (r id dig : Bytes) :
+    (∀ c1, astep H c (.commitCheck r id dig) = (c1, .okUnit) →
+      (astep H c1 (.commitStore r id)).1.st = (step H c.st (.wCommit r id dig)).1 ∧
+      (astep H c1 (.commitStore r id)).2 = (step H c.st (.wCommit r id dig)).2 ∧
+      (astep H c1 (.commitStore r id)).1.snaps = eraseSnap (r, id) c.snaps) ∧
+    (∀ c1 out, astep H c (.commitCheck r id dig) = (c1, out) → out ≠ .okUnit →
+      c1.st = (step H c.st (.wCommit r id dig)).1 ∧ out = (step H c.st (.wCommit r id dig)).2 ∧
+      c1.snaps = c.snaps) := by
+  rcases commitCheck_spec H c r id dig with ⟨hb, h⟩ | ⟨rp, b, e, hb, he, h⟩ | ⟨rp, b, hb, he, hd, h⟩ | ⟨rp, b, hb, he, hd, h⟩
+  · refine ⟨fun c1 hc => ?_, fun c1 out hc _ => ?_⟩
+    · rw [h] at hc; cases hc
+    · rw [h] at hc; cases hc
+      simp [step, hb]
+  · refine ⟨fun c1 hc => ?_, fun c1 out hc _ => ?_⟩
+    · rw [h] at hc; cases hc
+    · rw [h] at hc; cases hc
+      simp [step, hb, he]
+  · refine ⟨fun c1 hc => ?_, fun c1 out hc _ => ?_⟩
+    · rw [h] at hc; cases hc
+    · rw [h] at hc; cases hc
+      simp [step, hb, he, hd]
+  · refine ⟨fun c1 hc => ?_, fun c1 out hc hne => ?_⟩
+    · rw [h] at hc; cases hc
+      have hg1 : getRepo (putBuffer c.st r rp id { b with committed := true }) r =
+          some { rp with uploads := ainsert id { b with committed := true } rp.uploads } :=
+        getRepo_putRepo_eq _ _ _
+      rcases commitStore_spec H
+          { st := putBuffer c.st r rp id { b with committed := true },
+            snaps := ((r, id), (dig, b.buf)) :: eraseSnap (r, id) c.snaps } r id with
+        ⟨hn, _⟩ | ⟨_, _, _, hn, _⟩ | ⟨dig', data', rp', hl, hg', h2⟩
+      · rw [lookupSnap_cons_eq] at hn; cases hn
+      · rw [hg1] at hn; cases hn
+      · rw [lookupSnap_cons_eq] at hl; cases hl
+        rw [hg1] at hg'; cases hg'
+        rw [h2]
+        refine ⟨?_, ?_, ?_⟩
+        · simp only [step, hb, he, hd]
+          simp [putBuffer, putRepo_putRepo]
+        · simp [step, hb, he, hd]
+        · show eraseSnap (r, id) (((r, id), (dig, b.buf)) :: eraseSnap (r, id) c.snaps) = _
+          simp [eraseSnap, eraseSnap_idem]
+    · rw [h] at hc; cases hc
+      exact absurd rfl hne
+
+end
 
 end OciModel.Props.C08
